@@ -19,6 +19,22 @@ func main() {
 	switch os.Args[1] {
 	case "run":
 		cmdRun(os.Args[2:])
+	case "conc":
+		// gosym conc <dir> <func> k=v,... v1,v2,...
+		prog, err := loadRepo()
+		if err != nil {
+			fmt.Fprintln(os.Stderr, err)
+			os.Exit(2)
+		}
+		var vec []uint64
+		for _, x := range strings.Split(os.Args[5], ",") {
+			v, _ := strconv.ParseUint(x, 10, 64)
+			vec = append(vec, v)
+		}
+		cr, err := ssaexec.RunConcrete(prog, pkgImportPath(os.Args[2]), os.Args[3], parseParams(os.Args[4]), vec, 0, 0)
+		fmt.Printf("%+v %v\n", cr, err)
+		nres, nerr := runNative(os.Args[2], []nativeJob{{Harness: os.Args[3], Vec: vec, Params: parseParams(os.Args[4]), Tag: "r"}}, "")
+		fmt.Printf("native: %+v %v\n", nres["r"], nerr)
 	case "check":
 		os.Exit(cmdCheck(os.Args[2:]))
 	default:
